@@ -198,7 +198,22 @@ theorem gen_propagateBeamN_eq (ptype : String) (u : CGrid ℝ n m) (dx lam k z :
     propagateBeamN ptype u dx lam k z = npBeam ptype u dx lam k z := by
   simp only [propagateBeamN, npBeam, gen_angularSpectrumN_eq, gen_bandLimitedAngularSpectrumN_eq,
     gen_transferFunctionFresnelN_eq, gen_impulseResponseFresnelN_eq, gen_fraunhoferN_eq]
-  split_ifs <;> simp_all
+  -- the dispatch tests are string comparisons (some of them disjunctions of two accepted names): decide each name once
+  by_cases e1 : ptype = "Angular Spectrum"
+  · subst e1; simp
+  by_cases e2 : ptype = "Bandlimited Angular Spectrum"
+  · subst e2; simp
+  by_cases e3 : ptype = "Transfer Function Fresnel"
+  · subst e3; simp
+  by_cases e4 : ptype = "TR Fresnel"
+  · subst e4; simp
+  by_cases e5 : ptype = "Impulse Response Fresnel"
+  · subst e5; simp
+  by_cases e6 : ptype = "IR Fresnel"
+  · subst e6; simp
+  by_cases e7 : ptype = "Fraunhofer"
+  · subst e7; simp
+  simp [e1, e2, e3, e4, e5, e6, e7]
 
 /-! ### torch `propagate_beam`: the three padding flags around the dispatch -/
 
